@@ -236,6 +236,35 @@ theorem listWatch_shape (m : Mode) (v : SentinelView) (ma ra : Option Addr) (oth
         | short => simp [hp, hv] at h
         | err => simp [hp, hv] at h
 
+theorem withSConn_inv (s : St) (c : Conn) (h : Inv s) : Inv (withSConn s c) ∧ Ext s (withSConn s c) :=
+  ⟨h, Ext.refl _⟩
+
+theorem noteReported_inv (s : St) (m r : Option Addr) (others : List Addr) (h : Inv s) :
+    Inv (noteReported s m r others) ∧ Ext s (noteReported s m r others) ∧
+    (∀ x, m = some x → x ∈ (noteReported s m r others).reportedM) ∧
+    (∀ x, r = some x → x ∈ (noteReported s m r others).reportedR) := by
+  refine ⟨⟨fun x hx => ⟨List.mem_append_right _ (h.1 x hx).1, (h.1 x hx).2⟩,
+           fun x hx => ⟨List.mem_append_right _ (h.2 x hx).1, (h.2 x hx).2⟩⟩,
+          ⟨rfl, fun x hx => List.mem_append_right _ hx, fun x hx => List.mem_append_right _ hx⟩, ?_, ?_⟩
+  · intro x hx; subst hx; simp [noteReported]
+  · intro x hx; subst hx; simp [noteReported]
+
+theorem switchByMode_inv (s : St) (w : World) (m r : Option Addr) (h : Inv s)
+    (hm : s.mode ≠ .replicaOnly → m.getD 0 ∈ s.reportedM)
+    (hr : s.mode ≠ .masterOnly → r.getD 0 ∈ s.reportedR) :
+    Inv (switchByMode s w m r).1 ∧ Ext s (switchByMode s w m r).1 := by
+  unfold switchByMode
+  cases hmode : s.mode with
+  | replicaOnly =>
+    exact switchTarget_inv s w _ false h (by simp) (fun _ => hr (by simp [hmode]))
+  | masterOnly =>
+    exact switchTarget_inv s w _ true h (fun _ => hm (by simp [hmode])) (by simp)
+  | both =>
+    have ha := switchTarget_inv s w (m.getD 0) true h (fun _ => hm (by simp [hmode])) (by simp)
+    have hb := switchTarget_inv (switchTarget s w (m.getD 0) true).1 (switchTarget s w (m.getD 0) true).2.1
+      (r.getD 0) false ha.1 (by simp) (fun _ => ha.2.2.2 _ (hr (by simp [hmode])))
+    exact ⟨hb.1, ha.2.trans hb.2⟩
+
 /-- one iteration of the refresh loop preserves the invariant -/
 theorem tryFront_inv (s : St) (w : World) (h : Inv s) :
     Inv (tryFront s w).1 ∧ Ext s (tryFront s w).1 := by
@@ -244,61 +273,37 @@ theorem tryFront_inv (s : St) (w : World) (h : Inv s) :
   | nil => exact ⟨h, Ext.refl _⟩
   | cons a rest =>
     simp only []
-    -- the state after (re)connecting to the sentinel differs from `s` only in `sConn`
-    generalize hkeep : (match s.sConn with | some c => c.addr == a && !c.closed | none => false) = keep
-    have hs1 : ∀ (s1 : St), s1 = (if keep = true then s else { s with sConn := some ⟨a, false, .err⟩ }) →
-        Inv s1 ∧ Ext s s1 := by
-      intro s1 h1; subst h1
+    have h1 : Inv (if keepSConn s a = true then s else withSConn s ⟨a, false, .err⟩) ∧
+        Ext s (if keepSConn s a = true then s else withSConn s ⟨a, false, .err⟩) := by
       split
       · exact ⟨h, Ext.refl _⟩
-      · exact ⟨h, Ext.refl _⟩
-    generalize hs1def : (if keep = true then s else { s with sConn := some ⟨a, false, .err⟩ }) = s1
-    obtain ⟨hi1, he1⟩ := hs1 s1 hs1def.symm
+      · exact withSConn_inv s _ h
+    generalize (if keepSConn s a = true then s else withSConn s ⟨a, false, .err⟩) = s1 at h1
+    have hmode1 : s1.mode = s.mode := h1.2.1
     split
-    · exact ⟨hi1, he1⟩
+    · exact h1
     · cases hlw : listWatch s.mode (w.sent a) with
-      | error e => exact ⟨hi1, he1⟩
+      | error e => exact ⟨(withSConn_inv s1 _ h1.1).1, h1.2⟩
       | ok res =>
         obtain ⟨m, r, others⟩ := res
         have hshape := listWatch_shape _ _ _ _ _ hlw
         simp only []
-        -- s2: sentinels and ghost lists extended
-        generalize hs2 : ({ s1 with sentinels := addSentinels s1.sentinels others,
-            reportedM := (match m with | some x => [x] | none => []) ++ s1.reportedM,
-            reportedR := (match r with | some x => [x] | none => []) ++ s1.reportedR } : St) = s2
-        have hi2 : Inv s2 := by
-          subst hs2
-          exact ⟨fun x hx => ⟨List.mem_append_right _ (hi1.1 x hx).1, (hi1.1 x hx).2⟩,
-                 fun x hx => ⟨List.mem_append_right _ (hi1.2 x hx).1, (hi1.2 x hx).2⟩⟩
-        have he2 : Ext s1 s2 := by
-          subst hs2
-          exact ⟨rfl, fun x hx => List.mem_append_right _ hx, fun x hx => List.mem_append_right _ hx⟩
-        have hmM : s.mode ≠ .replicaOnly → m.getD 0 ∈ s2.reportedM := by
-          intro hne
-          obtain ⟨x, hx, _⟩ := hshape.1 hne
-          subst hs2; simp [hx]
-        have hrR : s.mode ≠ .masterOnly → r.getD 0 ∈ s2.reportedR := by
-          intro hne
-          obtain ⟨x, hx⟩ := hshape.2 hne
-          subst hs2; simp [hx]
-        cases hmode : s.mode with
-        | replicaOnly =>
-          simp only []
-          have := switchTarget_inv s2 w (r.getD 0) false hi2 (by simp) (fun _ => hrR (by simp [hmode]))
-          have hext := he1.trans (he2.trans this.2)
-          split <;> exact ⟨this.1, hext⟩
-        | masterOnly =>
-          simp only []
-          have := switchTarget_inv s2 w (m.getD 0) true hi2 (fun _ => hmM (by simp [hmode])) (by simp)
-          have hext := he1.trans (he2.trans this.2)
-          split <;> exact ⟨this.1, hext⟩
-        | both =>
-          simp only []
-          have ha := switchTarget_inv s2 w (m.getD 0) true hi2 (fun _ => hmM (by simp [hmode])) (by simp)
-          have hb := switchTarget_inv (switchTarget s2 w (m.getD 0) true).1 (switchTarget s2 w (m.getD 0) true).2.1
-            (r.getD 0) false ha.1 (by simp) (fun _ => ha.2.2.2 _ (hrR (by simp [hmode])))
-          have hext := he1.trans (he2.trans (ha.2.trans hb.2))
-          split <;> exact ⟨hb.1, hext⟩
+        obtain ⟨hi2, he2, hm2, hr2⟩ := noteReported_inv s1 m r others h1.1
+        have hsw := switchByMode_inv (noteReported s1 m r others) w m r hi2
+          (by
+            intro hne
+            have : s.mode ≠ .replicaOnly := by rw [← hmode1]; exact hne
+            obtain ⟨x, hx, _⟩ := hshape.1 this
+            subst hx; exact hm2 x rfl)
+          (by
+            intro hne
+            have : s.mode ≠ .masterOnly := by rw [← hmode1]; exact hne
+            obtain ⟨x, hx⟩ := hshape.2 this
+            subst hx; exact hr2 x rfl)
+        have hext := h1.2.trans (he2.trans hsw.2)
+        split
+        · exact ⟨hsw.1, hext⟩
+        · exact ⟨(withSConn_inv _ _ hsw.1).1, hext⟩
 
 theorem refreshLoop_inv (head : Addr) (budget : Nat) (s : St) (w : World) (acts : List Act) (h : Inv s) :
     Inv (refreshLoop head budget s w acts).1 ∧ Ext s (refreshLoop head budget s w acts).1 := by
@@ -320,15 +325,16 @@ theorem refreshLoop_inv (head : Addr) (budget : Nat) (s : St) (w : World) (acts 
         · exact ⟨hi2, he2⟩
         · split
           · exact ⟨hi2, he2⟩
-          · have := ih s2 (tryFront s w).2.1 _ hi2
+          · have := ih s2 (tryFront s w).2.1 (acts ++ (tryFront s w).2.2.1) hi2
             exact ⟨this.1, he2.trans this.2⟩
 
 theorem refresh_inv (s : St) (w : World) (budget : Nat) (h : Inv s) :
     Inv (refresh s w budget).1 ∧ Ext s (refresh s w budget).1 := by
   unfold refresh
-  split
-  · exact ⟨h, Ext.refl _⟩
-  · have := refreshLoop_inv _ budget s w [] h
+  cases hl : s.sentinels with
+  | nil => exact ⟨h, Ext.refl _⟩
+  | cons head rest =>
+    have := refreshLoop_inv head budget s w [] h
     simp only []
     split
     · exact this
@@ -447,9 +453,9 @@ theorem switch_master_moves (s : St) (w : World) (a : Addr) (fuel budget : Nat) 
   rw [key]
   simp [install]
 
-/-- **switch_master_moves** (refresh path): when a refresh iteration succeeds in a mode with a master
-    target, the stored master is exactly the address that sentinel reported, and that node answered
-    ROLE "master" during this iteration. -/
+/-- **switch_master_moves** (refresh path): when a refresh iteration succeeds in master-only mode, the
+    stored master is exactly the address the asked sentinel reported, over a live connection, and that
+    node answered ROLE "master" during this iteration. -/
 theorem refresh_follows_reported_master (s : St) (w : World) (hstop : s.stopped = false)
     (hmode : s.mode = .masterOnly) (hok : (tryFront s w).2.2.2 = true) :
     ∃ sent a, s.sentinels.head? = some sent ∧ (w.sent sent).master = .addr a ∧
@@ -461,6 +467,10 @@ theorem refresh_follows_reported_master (s : St) (w : World) (hstop : s.stopped 
   | cons sent rest =>
     simp only [hl] at hok ⊢
     refine ⟨sent, ?_⟩
+    have hs1 : (if keepSConn s sent = true then s else withSConn s ⟨sent, false, .err⟩).stopped = false ∧
+        (if keepSConn s sent = true then s else withSConn s ⟨sent, false, .err⟩).mode = .masterOnly := by
+      split <;> simp [withSConn, hstop, hmode]
+    generalize (if keepSConn s sent = true then s else withSConn s ⟨sent, false, .err⟩) = s1 at hs1 hok ⊢
     split at hok
     · simp at hok
     · rename_i hdial
@@ -470,29 +480,18 @@ theorem refresh_follows_reported_master (s : St) (w : World) (hstop : s.stopped 
       | ok res =>
         obtain ⟨m, r, others⟩ := res
         obtain ⟨a, hma, hva⟩ := (listWatch_shape _ _ _ _ _ hlw).1 (by simp [hmode])
-        simp only [hlw, hmode] at hok ⊢
+        simp only [hlw] at hok ⊢
         subst hma
-        simp only [Option.getD_some] at hok ⊢
-        generalize hs2 : ({ (if (match s.sConn with | some c => c.addr == sent && !c.closed | none => false) = true
-            then s else { s with sConn := some ⟨sent, false, .err⟩ }) with
-            sentinels := addSentinels (if (match s.sConn with | some c => c.addr == sent && !c.closed | none => false) = true
-              then s else { s with sConn := some ⟨sent, false, .err⟩ }).sentinels others,
-            reportedM := [a] ++ (if (match s.sConn with | some c => c.addr == sent && !c.closed | none => false) = true
-              then s else { s with sConn := some ⟨sent, false, .err⟩ }).reportedM,
-            reportedR := (match r with | some x => [x] | none => []) ++
-              (if (match s.sConn with | some c => c.addr == sent && !c.closed | none => false) = true
-              then s else { s with sConn := some ⟨sent, false, .err⟩ }).reportedR } : St) = s2 at hok ⊢
-        have hst2 : s2.stopped = false := by
-          subst hs2; split <;> simp [hstop]
+        have hs2 : (noteReported s1 (some a) r others).stopped = false ∧
+            (noteReported s1 (some a) r others).mode = .masterOnly := by simp [noteReported, hs1]
+        generalize noteReported s1 (some a) r others = s2 at hs2 hok ⊢
+        have hsb : switchByMode s2 w (some a) r = switchTarget s2 w a true := by
+          unfold switchByMode; simp [hs2.2]
+        rw [hsb] at hok ⊢
         cases herr : (switchTarget s2 w a true).2.2.2 with
-        | some e =>
-          rw [show switchTarget s2 w a true = ((switchTarget s2 w a true).1, (switchTarget s2 w a true).2.1,
-            (switchTarget s2 w a true).2.2.1, (switchTarget s2 w a true).2.2.2) from rfl, herr] at hok
-          simp at hok
+        | some e => simp [herr] at hok
         | none =>
-          obtain ⟨hrole, hinst⟩ := switch_success s2 w a true hst2 herr
-          rw [show switchTarget s2 w a true = ((switchTarget s2 w a true).1, (switchTarget s2 w a true).2.1,
-            (switchTarget s2 w a true).2.2.1, (switchTarget s2 w a true).2.2.2) from rfl, herr]
+          obtain ⟨hrole, hinst⟩ := switch_success s2 w a true hs2.1 herr
           simp only [hinst]
           exact ⟨a, rfl, hva, by simp [install], by simp [install], by simpa using hrole⟩
 
